@@ -91,6 +91,10 @@ func gen(tier string, seed int64) []mon.Case {
 		hs := hs
 		cs = append(cs, mon.MkCase(fmt.Sprintf("c02/hash/%02d", k), Desc{Kind: "drv", Drv: &hs}))
 	}
+	for k, es := range EchoWalkSessions() {
+		es := es
+		cs = append(cs, mon.MkCase(fmt.Sprintf("c02/echowalk/%02d", k), Desc{Kind: "drv", Drv: &es}))
+	}
 	for k, ds := range DeclSessions() {
 		ds := ds
 		cs = append(cs, mon.MkCase(fmt.Sprintf("c02/decl/%02d", k), Desc{Kind: "drv", Drv: &ds}))
@@ -160,13 +164,14 @@ func init() {
 			"Driver level: real netconf.Driver over devsim.Conn + ncsim server, 1.0 and 1.1, Get/RPC/GetConfig, all segmentation policies plus forced read boundaries inside chunk headers, " +
 			"end markers and delimiters and between ]]>]]> and the LF that follows it; no read carries bytes of two server messages. Dedicated sub-families with placed read boundaries and controls: " +
 			"'bigbuf' (5-10 replies of 64-300 KiB per session, one huge chunk / 4 KiB chunks / PRNG chunkings, each followed at once by a notification or an unsolicited old-id reply, read delay 0/50/250 us), " +
+			"'echowalk' (echoing server, no mark between echo and reply, whitespace-rich reply sent right after the request's last write; the read that completes the echo ends after k bytes of the framed reply, for every k, 1.0 and 1.1), " +
 			"'hash' (1.1 data lines / chunks starting with or equal to '##') and 'decl' (1.0, LF after the delimiter in a read of its own, next reply with declaration); fixed witness inputs. " +
 			"Non-trivial = (enum/mutation batch) the reference accepted at least one and rejected at least one input; (legal batch) at least one multi-chunk frame; " +
-			"(driver session) a read boundary strictly inside a chunk header, the end-of-chunks marker or the 1.0 delimiter, or a reply >= 64 KiB followed at once by another server message. Distinct = distinct descriptor hash.",
+			"(driver session) a read that carries echo bytes and reply bytes, a read boundary strictly inside a chunk header, the end-of-chunks marker or the 1.0 delimiter, or a reply >= 64 KiB followed at once by another server message. Distinct = distinct descriptor hash.",
 		Assumptions: []string{
 			"payload alphabet excludes CR and ESC (the channel strips them by design); payloads are valid UTF-8",
 			"the XML declaration, when present, is spelled exactly <?xml version=\"1.0\" encoding=\"UTF-8\"?> and is the first bytes of the payload",
-			"1.0 payloads never contain ]]>]]> and payload+delimiter contains the delimiter only at the end; payloads never contain </rpc>, message-id= (other than the reply's own attribute) or </subscription-id>",
+			"1.0 payloads never contain ]]>]]> and payload+delimiter contains the delimiter only at the end; payloads never contain </rpc>; the reply's own message-id attribute is the first message-id=\"…\" text of the payload; about a third of the payloads hold <hello>…</hello>, <capability>, <session-id>7</session-id>, <subscription-id>5</subscription-id>, message-id=\"9\" as data",
 			"driver level, ordinary families: the framed 1.1 reply contains LF## only as the end-of-chunks marker (checked by brute force on the wire bytes; violating inputs are generated only in the dedicated 'hash' family)",
 			"driver level: a read never carries bytes of two server messages (devsim marks); the LF some servers send after ]]>]]> belongs to the message it follows",
 			"tolerant reference (trusted base, ref.go ~70 lines) defines 'malformed' for arbitrary bytes: leading whitespace skipped; ZERO or more LFs before each '#' (loosened from RFC 6242's exactly one: " +
